@@ -61,6 +61,10 @@ func adminGuardianSetUpgradeToVAA(
 		return nil, fmt.Errorf("too many guardians - %d, maximum is %d", len(req.Guardians), common.MaxGuardianCount)
 	}
 
+	if guardianSetIndex == math.MaxUint32 {
+		return nil, errors.New("invalid current guardian set index: the new index does not fit in 32 bits")
+	}
+
 	addrs := make([]ethcommon.Address, len(req.Guardians))
 	for i, g := range req.Guardians {
 		if !ethcommon.IsHexAddress(g.Pubkey) {
